@@ -122,6 +122,18 @@ def candidatesReq (j : Json) : R Json := do
     ("dev_tested", boolW c.v.devTested), ("dev_viable", boolW c.v.devViable),
     ("min_freq_dev", boolW c.v.minFreqDev), ("ranks_dev", boolW c.v.ranksDev), ("distinct_dev", boolW c.v.distinctDev)]) cs)
 
+/-- `carve.measure`: exact measure of one grouping of the base labels, on the stage-1 table
+    (non-missing modalities) or the stage-2 table (all modalities) -/
+def measureReq (j : Json) : R Json := do
+  let cfg ← cfgJ j
+  let inp ← inputJ j cfg
+  let comb ← listJ (listJ (fun x => x.getStr?)) (← fld j "comb")
+  let stage ← natF j "stage"
+  let t := if stage == 1 then inp.train1 else inp.train2
+  -- the measure is computed on the grouped table; n_obs is the size of the table it came from
+  let g := grouper cfg t.rows comb
+  pure (obj [("m", measureW (measure cfg (g.map (·.2)) (nRows t.rows) t.tie)), ("groups", natW g.length)])
+
 /-- `combos`: the enumerators on abstract labels -/
 def combos (j : Json) : R Json := do
   let order ← listJ (fun x => x.getStr?) (← fld j "order")
